@@ -15,7 +15,9 @@ DEVS_MUST_FAIL = {
     '{"rr_from_0"}': "Durable",
     '{"wal_remove_one_by_one"}': "Durable",
     '{"ack_before_wal"}': "WalBeforeAck",
-    '{"remove_wal_before_rename"}': "RemoveAfterRename",
+    # removing the log before the rename also un-protects an acknowledged write: with several TLC workers either
+    # property may be the first one reported
+    '{"remove_wal_before_rename"}': ("RemoveAfterRename", "WalBeforeAck", "Durable"),
 }
 
 
@@ -32,7 +34,7 @@ def mode_a(tier):
             p = os.path.join(tmp, "dev.cfg")
             open(p, "w").write(base.replace("Dev = {}", "Dev = " + dev))
             rr = vlib.run_tlc("WalMC", p, timeout=900)
-            if rr["violated"] != inv:
+            if rr["violated"] not in (inv if isinstance(inv, tuple) else (inv,)):
                 raise vlib.Infra(f"deviation {dev} should violate {inv} in Wal.tla but TLC says {rr['violated']} / {rr['error']}")
             devs[dev] = rr["violated"]
     finally:
